@@ -682,9 +682,9 @@ func genC05(cfg runCfg, e *emitter, rng *rand.Rand) {
 			rf.apply(dels, adds)
 			e.line("BLOCKT %s %s", us(ts), hs(adds))
 			emitRoots(e, is)
-			// "for all reachable states": a third of the histories also reach states through Undo - the
+			// "for all reachable states": half of the histories also reach states through Undo - the
 			// block just applied is undone (with the canonical proof) and the history goes on from there
-			if hI%3 == 2 && rng.Intn(3) == 0 {
+			if hI%2 == 1 && rng.Intn(2) == 0 {
 				undoOne := func(label string, p u.Utreexo) {
 					if is.dead[label] {
 						return
